@@ -67,6 +67,7 @@ static const size_t SITES_MAX = 1u << 17;
 struct Shm {
     int done;
     char sig[160]; char detail[3000]; char outcome[600];
+    char verdict[240], verdict_none[240], verdict_old[240]; int phase1_ok;   // CRL scenarios: revocation verdicts of the phase-2 handshakes
     uint64_t n_alloc, n_fault, n_alloc_scn;       // n_alloc_scn: armed allocations when the scenario body ended (before the usability handshakes)
     c19_fault_t flog[C19_FAULTLOG]; c19_fault_t trace;
     uint64_t live_total; uint32_t n_live; c19_live_t live[96]; int ledger_overflow;
@@ -91,7 +92,8 @@ static void outcome(const char *f, ...) {
 }
 
 // ------------------------------------------------------------------------------------------------ keys (parent, unarmed)
-static std::string pki(const char *f) { const char *e = getenv("VERIF_DIR"); return std::string(e ? e : "/verif") + "/pki/" + f; }
+// "name" = /verif/pki/name; "@name" = /verif/props/C19/pki/name (leaf good_{rsa,ec} and the CRLs of ca_{rsa,ec} that revoke it / revoke nothing)
+static std::string pki(const char *f) { const char *e = getenv("VERIF_DIR"); std::string r = e ? e : "/verif"; return f[0] == '@' ? r + "/props/C19/pki/" + (f + 1) : r + "/pki/" + f; }
 static const unsigned char PSK_KEY[16] = { 1, 2, 3, 4, 5, 6, 7, 8, 9, 10, 11, 12, 13, 14, 15, 16 };
 static const unsigned char PSK_BAD[16] = { 9, 9, 9, 9, 9, 9, 9, 9, 9, 9, 9, 9, 9, 9, 9, 9 };
 static const unsigned char PSK_ID[8] = { 'v', 'e', 'r', 'i', 'f', 'p', 's', 'k' };
@@ -100,7 +102,7 @@ static const unsigned char TICKET_SYM[32] = { 0x11, 0x22, 0x33, 0x44, 0x55, 0x66
                                               0x12, 0x23, 0x34, 0x45, 0x56, 0x67, 0x78, 0x89, 0x9a, 0xab, 0xbc, 0xcd, 0xde, 0xef, 0xf0, 0x02 };
 static const unsigned char TICKET_MAC[32] = { 0x21, 0x22, 0x23, 0x24, 0x25, 0x26, 0x27, 0x28, 0x29, 0x2a, 0x2b, 0x2c, 0x2d, 0x2e, 0x2f, 0x30,
                                               0x31, 0x32, 0x33, 0x34, 0x35, 0x36, 0x37, 0x38, 0x39, 0x3a, 0x3b, 0x3c, 0x3d, 0x3e, 0x3f, 0x40 };
-enum KeyId { K_SRV_RSA, K_SRV_EC, K_SRV_OTHER, K_SRV_RSA_TRUST_OTHER, K_SRV_PSK, K_CLI_RSA, K_CLI_EC, K_CLI_NOID_RSA, K_CLI_NOID_EC, K_CLI_NOID_OTHER, K_CLI_PSK, K_CLI_PSK_BAD, K_SRV_RSA_BADSIG, K_TK_SRV, K_TK_SRV_REVOKED, K_TK_SRV_NOSTAPLE, K_TK_CLI, K_NKEYS };
+enum KeyId { K_SRV_RSA, K_SRV_EC, K_SRV_OTHER, K_SRV_RSA_TRUST_OTHER, K_SRV_PSK, K_CLI_RSA, K_CLI_EC, K_CLI_NOID_RSA, K_CLI_NOID_EC, K_CLI_NOID_OTHER, K_CLI_PSK, K_CLI_PSK_BAD, K_SRV_RSA_BADSIG, K_TK_SRV, K_TK_SRV_REVOKED, K_TK_SRV_NOSTAPLE, K_TK_CLI, K_GOOD_RSA, K_GOOD_EC, K_NKEYS };
 static sslKeys_t *g_keys[K_NKEYS];
 static sslKeys_t *load_keys(const char *cert, const char *key, const char *ca, bool tickets) {
     sslKeys_t *k = nullptr;
@@ -161,6 +163,8 @@ static void keystore_init() {
     g_keys[K_CLI_PSK] = psk_keys(PSK_KEY);
     g_keys[K_CLI_PSK_BAD] = psk_keys(PSK_BAD);
     g_keys[K_SRV_RSA_BADSIG] = badsig_keys();
+    g_keys[K_GOOD_RSA] = load_keys("@good_rsa.pem", "@good_rsa.key", "ca_rsa.pem", false);   // the leaf the CRLs revoke; used as server and as client identity
+    g_keys[K_GOOD_EC] = load_keys("@good_ec.pem", "@good_ec.key", "ca_ec.pem", false);
     g_keys[K_TK_SRV] = testkeys_srv(c19_tk_ocsp_good, c19_tk_ocsp_good_len);
     g_keys[K_TK_SRV_REVOKED] = testkeys_srv(c19_tk_ocsp_revoked, c19_tk_ocsp_revoked_len);
     g_keys[K_TK_SRV_NOSTAPLE] = testkeys_srv(NULL, 0);
@@ -170,7 +174,8 @@ static void keystore_delete() { for (auto &k : g_keys) if (k) { API(matrixSslDel
 
 // ------------------------------------------------------------------------------------------------ endpoint (follows mxh::Endpoint's caller contract)
 static Facts g_facts;   // certificate-callback part; the verify/validate counters live in the wraps
-static int32_t cert_cb(ssl_t *, psX509Cert_t *cert, int32_t alert) { g_facts.cb_calls++; if (alert == 0 && cert) g_facts.cb_ok++; return alert; }
+static int g_last_cb_alert = -1;
+static int32_t cert_cb(ssl_t *, psX509Cert_t *cert, int32_t alert) { g_facts.cb_calls++; if (alert == 0 && cert) g_facts.cb_ok++; g_last_cb_alert = alert; return alert; }
 static Facts facts_now() { Facts f = g_facts; f.ver_calls = c19_verify_calls; f.ver_ok = c19_verify_ok; f.val_calls = c19_validate_calls; f.val_ok = c19_validate_ok; return f; }
 static Facts facts_sub(const Facts &a, const Facts &b) { return Facts{ a.ver_calls - b.ver_calls, a.ver_ok - b.ver_ok, a.val_calls - b.val_calls, a.val_ok - b.val_ok, a.cb_calls - b.cb_calls, a.cb_ok - b.cb_ok }; }
 static std::string facts_str(const Facts &f) { return fmt("verify %llu/%llu validate %llu/%llu certcb %llu/%llu", (unsigned long long) f.ver_ok, (unsigned long long) f.ver_calls, (unsigned long long) f.val_ok, (unsigned long long) f.val_calls, (unsigned long long) f.cb_ok, (unsigned long long) f.cb_calls); }
@@ -300,7 +305,7 @@ struct Scn {
 };
 static std::vector<Scn> g_scn;
 
-struct HsCfg { int ver; uint16_t suite; sslKeys_t *ck, *sk; bool cauth; sslSessionId_t *sid; const char *name; bool tickets; bool exts; int group; bool ocsp; };
+struct HsCfg { int ver; uint16_t suite; sslKeys_t *ck, *sk; bool cauth; sslSessionId_t *sid; const char *name; bool tickets; bool exts; int group; bool ocsp; bool nocb = false; };
 // TLS 1.3 key exchange groups: 0 library default (P-256 share), 1 x25519 only, 2 client offers an x25519 share but the server only accepts P-256 (HelloRetryRequest)
 static int32 set_groups(sslSessOpts_t *o, int group, bool client) {
     uint16_t x[2] = { 0x001d, 0x0017 }, p[1] = { 0x0017 };
@@ -360,7 +365,7 @@ static bool open_pair(Conn &cn, const HsCfg &h, int ext_delete_early) {
     psCipher16_t cs[1] = { h.suite };
     cn.c.sel();
     ssl_t *cs_ = nullptr;
-    rc = API(matrixSslNewClientSession(&cs_, h.ck, h.sid, cs, 1, cert_cb, h.name, cn.ext, NULL, &co));
+    rc = API(matrixSslNewClientSession(&cs_, h.ck, h.sid, cs, 1, h.nocb ? NULL : cert_cb, h.name, cn.ext, NULL, &co));
     if (rc < 0) { outcome("NewClientSession=%d;", rc); return false; }
     if (!cs_) { viol("c19:success-with-null-object", "matrixSslNewClientSession returned %d but no session", rc); return false; }
     cn.c.ssl = cs_;
@@ -591,9 +596,73 @@ static bool phase2(const Scn &s, sslKeys_t *ck, sslKeys_t *sk, bool must_complet
     if (sid) API(matrixSslDeleteSessionId(sid));
     return ok;
 }
+// ---- CRL scenarios.  The application loads a CRL the way apps/ssl/client.c does: psX509ParseCRL, psCRL_Update(crl, 1) into the global
+// cache, psX509AuthenticateCRL against the issuer; a CRL that cannot be authenticated is taken out again (psCRL_Delete).
+static Bytes g_crl_buf;
+static bool load_crl(const char *file, sslKeys_t *issuerKeys, bool report) {
+    g_crl_buf.clear(); file_bytes(pki(file), g_crl_buf);
+    psX509Crl_t *crl = NULL;
+    int32 rc = API(psX509ParseCRL(NULL, &crl, g_crl_buf.data(), (int32) g_crl_buf.size()));
+    if (report) outcome("ParseCRL=%d;", rc);
+    if (rc < 0) return false;
+    if (!crl) { viol("c19:success-with-null-object", "psX509ParseCRL returned %d with NULL crl", rc); return false; }
+    int urc = API(psCRL_Update(crl, 1));
+    if (report) outcome("CRL_Update=%d;", urc);
+    if (urc < 0) { API(psX509FreeCRL(crl)); return false; }
+    psX509Cert_t *ic; bool auth = false;
+    for (ic = API(sslKeysGetCACerts(issuerKeys)); ic != NULL && !auth; ic = ic->next) auth = API(psX509AuthenticateCRL(ic, crl, NULL)) >= 0;
+    if (report) outcome("AuthenticateCRL=%d;", (int) auth);
+    if (!auth) { API(psCRL_Delete(crl)); return false; }
+    return true;
+}
+// phase 2: handshakes with a peer whose certificate the CRL revokes and with one it does not, client verifying server and
+// server verifying client; the verdict string records for each: completed / client alert / server alert / alert given to the callback
+static void crl_verdicts(const Scn &s, char *out, size_t outsz) {
+    bool ec = (s.sub == 7);
+    struct H { const char *tag; int ck, sk; bool cauth; } hs[4] = {
+        { "revoked-server", ec ? K_CLI_NOID_EC : K_CLI_NOID_RSA, ec ? K_GOOD_EC : K_GOOD_RSA, false }, { "good-server", ec ? K_CLI_NOID_EC : K_CLI_NOID_RSA, ec ? K_SRV_EC : K_SRV_RSA, false },
+        { "revoked-client", K_GOOD_RSA, K_SRV_RSA, true }, { "good-client", K_CLI_RSA, K_SRV_RSA, true } };
+    out[0] = 0;
+    for (int i = 0; i < (ec ? 2 : 4); i++) {
+        vfh_entropy_reset(9300 + i); vfh_clock_set_ms(3000000);
+        g_last_cb_alert = -1;
+        Conn cn; HsCfg h = cfg_of(s, g_keys[hs[i].ck], g_keys[hs[i].sk], hs[i].cauth ? H_CAUTH : H_FULL, nullptr, true); h.tickets = false; h.nocb = (s.order & 1) && !hs[i].cauth;
+        bool opened = open_pair(cn, h, 0), done = opened && handshake(cn);
+        if (opened && !done && !ended_with_error(cn)) viol("c19:silent-stall", "%s: handshake neither completed nor ended with an error or alert", hs[i].tag);
+        size_t l = strlen(out); snprintf(out + l, outsz - l, "%s=%d/%d/%d/%d;", hs[i].tag, done, cn.c.fatal_alert, cn.s.fatal_alert, g_last_cb_alert);
+        cn.close_all(i);
+    }
+}
+static int g_mode_cur = M_NONE;
+static void run_crl(const Scn &s) {
+    // sub 5: first CRL (tls1.2), 6: first CRL (tls1.3), 7: empty -> revoking CRL of the EC CA (tls1.2), 8: revoking -> empty CRL (tls1.3)
+    bool ec = (s.sub == 7);
+    sslKeys_t *issuer = g_keys[ec ? K_CLI_NOID_EC : K_CLI_NOID_RSA];
+    const char *oldf = s.sub == 7 ? "@crl_empty_ec.der" : s.sub == 8 ? "@crl_revoked_rsa.der" : nullptr;
+    const char *newf = s.sub == 7 ? "@crl_revoked_ec.der" : s.sub == 8 ? "@crl_empty_rsa.der" : "@crl_revoked_rsa.der";
+    // reference verdicts (fault-free run only; nothing here is inside the fault plan): no CRL loaded / old CRL in force
+    c19_plan_off();
+    if (g_mode_cur == M_NONE) crl_verdicts(s, g_shm->verdict_none, sizeof g_shm->verdict_none);
+    if (oldf) {
+        if (!load_crl(oldf, issuer, false)) { viol("c19:harness-baseline-broken", "the old CRL does not load without faults"); return; }
+        if (g_mode_cur == M_NONE) crl_verdicts(s, g_shm->verdict_old, sizeof g_shm->verdict_old);
+    }
+    return;
+}
+static void run_crl_phase1(const Scn &s) {
+    bool ec = (s.sub == 7);
+    const char *newf = s.sub == 7 ? "@crl_revoked_ec.der" : s.sub == 8 ? "@crl_empty_rsa.der" : "@crl_revoked_rsa.der";
+    g_shm->phase1_ok = load_crl(newf, g_keys[ec ? K_CLI_NOID_EC : K_CLI_NOID_RSA], true);
+    c19_plan_off(); g_shm->n_alloc_scn = c19_alloc_count();
+    if (!g_shm->phase1_ok) g_shm->any_error = 1;
+    crl_verdicts(s, g_shm->verdict, sizeof g_shm->verdict);
+    outcome("verdicts: %s", g_shm->verdict);
+}
+
 static void run_two(const Scn &s) {
     static const unsigned char TK2_NAME[16] = { 't', 'i', 'c', 'k', 'e', 't', '-', 'k', 'e', 'y', '-', '0', '0', '0', '0', '2' };
     int32 rc = 0;
+    if (s.sub >= 5) { run_crl_phase1(s); return; }
     if (s.sub <= 2) {
         // 0: first staple on a serving key set, 1/2: periodic refresh of the staple; then a status_request client (TLS 1.2 / 1.3)
         sslKeys_t *sk = g_keys[s.sub == 0 ? K_TK_SRV_NOSTAPLE : K_TK_SRV], *ck = g_keys[K_TK_CLI];
@@ -709,6 +778,13 @@ static void build_scenarios() {
         s.exts = false; s.pmtu = 0; s.gck = s.gsk = -1; s.group = (i == 2) ? 1 : 0; s.ocsp = s.noname = (i <= 2);
         s.name = fmt("two-phase/%s%s", tn[i], o ? "+delete-old-key" : ""); g_scn.push_back(s);
     }
+    // two-phase CRL: ParseCRL + CRL_Update + AuthenticateCRL under the fault plan, then handshakes with revoked and unrevoked peers
+    static const char *cn[] = { "crl-first-load/rsa/then-tls1.2", "crl-first-load/rsa/then-tls1.3+client-without-callback", "crl-replace-empty-by-revoking/ec/then-tls1.2", "crl-replace-revoking-by-empty/rsa/then-tls1.3" };
+    for (int i = 0; i < 4; i++) {
+        Scn s; s.kind = SC_TWO; s.sub = 5 + i; s.ver = (i & 1) ? TLS13 : TLS12; s.suite = (i & 1) ? 0x1301 : i == 2 ? 0xC02B : 0x009C; s.ckey = s.skey = 0; s.hs = H_FULL; s.cred = GOOD; s.data = false; s.order = (i == 1) ? 1 : 0;
+        s.exts = false; s.pmtu = 0; s.gck = s.gsk = -1; s.group = (i & 1) ? 1 : 0;
+        s.name = fmt("two-phase/%s", cn[i]); g_scn.push_back(s);
+    }
 }
 
 // ------------------------------------------------------------------------------------------------ child
@@ -717,6 +793,8 @@ static uint64_t g_cur_N = 0;   // allocation count of the fault-free run of the 
 static void child_main(const Scn &s, int mode, uint64_t k, uint64_t trace_seq) {
     g_child = true;
     memset(&g_facts, 0, sizeof g_facts);
+    g_mode_cur = mode;
+    if (s.kind == SC_TWO && s.sub >= 5) run_crl(s);   // prelude outside the fault plan and outside the allocation count: reference verdicts (run 0 only) and the CRL that is to be replaced
     c19_set_log(g_shm->flog, &g_shm->n_fault);   // the fault log lives in shared memory: it must survive a crash of this process
     c19_reset();
     c19_trace_seq(trace_seq);
@@ -745,6 +823,7 @@ static void child_main(const Scn &s, int mode, uint64_t k, uint64_t trace_seq) {
         g_shm->post = facts_sub(facts_now(), f2);
     }
     // the application deletes everything it owns; nothing allocated inside an armed window may stay live
+    API(psCRL_DeleteAll());
     keystore_delete();
     API(matrixSslClose());
     g_shm->n_alloc = c19_alloc_count();
@@ -801,7 +880,7 @@ static std::string leak_owner(const c19_fault_t &leaked, const c19_fault_t &fail
 }
 
 struct Base { bool have = false; bool bad = false; std::string err; uint64_t N = 0; std::vector<uint8_t> bulk; std::vector<uint32_t> rank, ctx; std::vector<void *> sites; std::map<void *, unsigned> live; uint64_t live_total = 0;
-              size_t nbulk = 0, nctx = 0; Facts prime, main_, post; int main_complete = 0, main_resumed = 0; std::string outcome; uint64_t dc = 0, ds = 0; };
+              size_t nbulk = 0, nctx = 0; Facts prime, main_, post; int main_complete = 0, main_resumed = 0; std::string outcome; uint64_t dc = 0, ds = 0; std::string verdict, verdict_none, verdict_old; };
 static std::vector<Base> g_base;
 static int g_errfd = -1;
 static bool g_quick = false, g_replay = false, g_full = false; static uint64_t g_seed = 1;
@@ -889,6 +968,11 @@ static const Base &base_of(size_t si) {
     b.live_total = g_shm->live_total;
     b.prime = g_shm->prime; b.main_ = g_shm->main_; b.post = g_shm->post; b.main_complete = g_shm->main_complete; b.main_resumed = g_shm->main_resumed; b.outcome = g_shm->outcome;
     b.dc = g_shm->delivered_c; b.ds = g_shm->delivered_s;
+    b.verdict = g_shm->verdict; b.verdict_none = g_shm->verdict_none; b.verdict_old = g_shm->verdict_old;
+    if (g_scn[si].kind == SC_TWO && g_scn[si].sub >= 5) {
+        if (!g_shm->phase1_ok) { b.bad = true; b.err = "harness: the CRL does not load without faults: " + std::string(g_shm->outcome); }
+        else if (b.verdict == (g_scn[si].sub == 8 ? b.verdict_old : b.verdict_none)) { b.bad = true; b.err = "harness: the CRL makes no difference to the phase-2 verdicts: " + b.verdict; }
+    }
     const Scn &s = g_scn[si];
     if (s.kind == SC_HS && s.cred == GOOD && !b.main_complete) { b.bad = true; b.err = "harness: fault-free good-credential handshake does not complete: " + b.outcome; }
     if (s.kind == SC_HS && s.cred == GOOD && s.hs >= H_RESUME_ID && !b.main_resumed) { b.bad = true; b.err = "harness: fault-free resumption scenario did not resume: " + b.outcome; }
@@ -911,7 +995,7 @@ static bool selected(const Scn &sc, const Base &b, int mode, uint64_t k) {
     bool bulk = b.bulk[k - 1]; uint32_t rank = b.rank[k - 1], ctx = b.ctx[k - 1];
     if (mode == M_SINGLE) {
         if (!bulk) return !g_quick || sc.kind != SC_HS || rank < 2 || (rank + g_seed) % 8 == 0;
-        uint64_t cap = g_quick ? 40 : 2500, stride = std::max<uint64_t>(g_quick ? 5 : 1, (b.nbulk + cap - 1) / cap);
+        uint64_t cap = g_quick ? 30 : 2500, stride = std::max<uint64_t>(g_quick ? 5 : 1, (b.nbulk + cap - 1) / cap);
         if (g_quick) return (rank == 0 && (ctx + g_seed) % 2 == 0) || (k + g_seed) % stride == 0;
         return rank < 6 || (rank + g_seed) % stride == 0;
     }
@@ -988,6 +1072,14 @@ static void prop(Tape &t, Ctx &c) {
                 { report(c, "c19:data-lost-without-error@" + own, where + fmt("; delivered client=%llu server=%llu (fault-free %llu/%llu) and no error was reported", (unsigned long long) g_shm->delivered_c, (unsigned long long) g_shm->delivered_s, (unsigned long long) b.dc, (unsigned long long) b.ds)); return; }
         } else c.count("outcome:clean-failure");
     } else c.count(g_shm->any_error ? "outcome:clean-failure" : "outcome:success-despite-fault");
+    // CRL scenarios: revocation verdicts of the fault-free phase-2 handshakes
+    if (s.kind == SC_TWO && s.sub >= 5) {
+        std::string v = g_shm->verdict;
+        if (g_shm->phase1_ok && v != b.verdict)
+            { report(c, "c19:revocation-verdict-differs-after-successful-crl-load", where + "; every CRL call reported success but the handshakes afterwards end [" + v + "], fault-free run [" + b.verdict + "]; outcome: " + g_shm->outcome); return; }
+        if (!g_shm->phase1_ok && v != b.verdict_none && v != b.verdict_old && v != b.verdict)
+            { report(c, "c19:inconsistent-crl-state-after-failed-load", where + "; a CRL call failed and the handshakes afterwards end [" + v + "], which is neither 'no CRL' [" + b.verdict_none + "] nor 'old CRL' [" + b.verdict_old + "] nor 'new CRL' [" + b.verdict + "]; outcome: " + g_shm->outcome); return; }
+    }
     // leaks: live armed-window allocations after full teardown, beyond what run 0 leaves per call site
     if (g_shm->ledger_overflow) { report(c, "c19:harness-ledger-overflow", where); return; }
     std::map<void *, unsigned> live; for (uint32_t i = 0; i < g_shm->n_live; i++) live[g_shm->live[i].site]++;
